@@ -965,7 +965,7 @@ class CachedInput:
             size = self.block_size
 
         b_size = len(self.__buffer)
-        size = min(self.__todo, size)
+        size = min(self.__todo + b_size, size)
 
         if self.__buffer:
             if b_size >= size:
